@@ -35,7 +35,7 @@ func TestMain(m *testing.M) {
 			"(the statement bounds declared lengths by the input size). (b) a generated project is built, one target of the closure is made genuinely "+
 			"stale by an edit, and its persisted record (or a source's) is corrupted: truncated at a generated offset, bytes flipped, its pickled stamp "+
 			"mutated with the mutators of (a), replaced by opcode soup, by a valid pickle of a foreign value, or by type-confused JSON; then the project is "+
-			"loaded and built in process. Oracle: no panic; either Load or Run reports an error, or the stale target executes and all outputs equal a "+
+			"loaded and built in a child process - from a fresh load or, a quarter of the time, as a watch session (loaded while the record is intact, record corrupted, Reload twice, Run). Oracle: no panic; either Load or Run reports an error, or the stale target executes and all outputs equal a "+
 			"from-scratch build - 'up to date' is a violation whatever the corrupted bytes say. Non-trivial = (a) the input decodes or passes >= 3 "+
 			"opcodes before failing, (b) the corrupted record is still valid JSON. Distinct by case JSON.",
 		"declared lengths are bounded by the input size (checked by an independent framing walker)",
